@@ -8,6 +8,8 @@
 //!   stats.json      what was generated and reached (counters, samples, distinct cases)
 
 pub mod ctx;
+pub mod gen;
+pub mod progs;
 
 mod props {
     include!(concat!(env!("OUT_DIR"), "/props.rs"));
@@ -54,7 +56,12 @@ fn main() {
         }
     }
     // panics inside `catch` are expected in some probes; keep stderr quiet
-    std::panic::set_hook(Box::new(|_| {}));
+    let default_hook = std::panic::take_hook();
+    std::panic::set_hook(Box::new(move |info| {
+        if ctx::QUIET.load(std::sync::atomic::Ordering::SeqCst) == 0 {
+            default_hook(info);
+        }
+    }));
     let mut ctx = Ctx::new(&prop, seed, tier, out);
     let rule = match props::dispatch(&prop, &mut ctx, case.as_deref()) {
         Some(r) => r,
